@@ -801,7 +801,7 @@ func (c *Ctx) tokenTypeNames() map[int64]string {
 
 func init() {
 	register("C12", &propDef{
-		explain: "Structural rules on the comparator and all its users: every operator/min/max/sort/key-search delegates to object.Cmp with operands in order and interprets the result by a predicate whose truth set on {-1,0,1} is the expected one (evaluated exhaustively on that 3-point domain); every return of Cmp is confined to {-1,0,1}; operand roles are never mixed and one-sided comparisons are mirrored (antisymmetry by construction); no lossy numeric conversion feeds a comparison; explicit panic arms are only for tags no program value can carry; Equals = TypeEqual && Cmp==0. Transitivity as such is not decided: it follows from these for every arm except the mixed int/float one, which R3 reports. Also: helpers whose result Cmp returns are followed (three-valued returns, negation accepted), and a float-to-integer conversion inside the comparator must be dominated by -2^63 <= f < 2^63 with a strict upper bound.",
+		explain: "Structural rules on the comparator and all its users: every operator/min/max/sort/key-search delegates to object.Cmp with operands in order and interprets the result by a predicate whose truth set on {-1,0,1} is the expected one (evaluated exhaustively on that 3-point domain); every return of Cmp is confined to {-1,0,1}; operand roles are never mixed and one-sided comparisons are mirrored (antisymmetry by construction); no lossy numeric conversion feeds a comparison; explicit panic arms are only for tags no program value can carry; Equals = TypeEqual && Cmp==0. Transitivity as such is not decided: it follows from these for every arm except the mixed int/float one, which R3 reports. Also: helpers whose result Cmp returns are followed (three-valued returns, negation accepted), and a float-to-integer conversion inside the comparator must be dominated by -2^63 <= f < 2^63 with a strict upper bound. Shares C11.R2 (SmallMap.get is the other user of the order).",
 		assume:  []string{"cmp.Compare is a total order on its operand type (NaN ordered first, by its contract)", "the justification table for panic arms (REFERENCE/REGISTER via Value(), RETURN via Eval, MACRO never a program value)"},
 		run:     runC12,
 	})
